@@ -18,7 +18,7 @@ BUDGET_S = {"quick": 60, "thorough": 1800}
 MAX_RUNS = {"quick": 4000, "thorough": 10**9}
 MIN_OPS = 1
 
-NAMES = [None, "m", "r", "T", "x_0", "SYM7", "FUN3", "QTY1", "m"]
+NAMES = [None, "m", "r", "T", "x_0", "SYM7", "FUN3", "QTY1", "m", "Symbol", "beta", "Abs"]
 LATEX = [None, None, "\\mu", "r_{1}"]
 SUBS = [None, "0", "max", "1"]
 DIMS = ["length", "mass", "time", "one", "velocity", "temperature"]
@@ -52,7 +52,7 @@ def _boundary(rng):
 def generate(seed: int, run: int, tier: str) -> dict:
     rng = core.rng_for(seed, PROP, run, "gen")
     n = rng.choice([5, 8, 12, 20, 30, 40]) if tier == "quick" else rng.choice([5, 8, 12, 20, 30, 45, 60])
-    w_create = {"symbol": 6, "indexed": 2, "function": 3, "quantity": 3, "quantity_of": 1, "wrapper": 2, "coordsys": 1, "transform": 1, "rotate": 1, "vecsymbol": 1, "vecfunction": 1,
+    w_create = {"symbol": 6, "indexed": 2, "function": 3, "quantity": 3, "quantity_of": 1, "wrapper": 2, "xcoordsys": 1, "coordsys": 1, "transform": 1, "rotate": 1, "vecsymbol": 1, "vecfunction": 1,
                 "clone_symbol": 5, "clone_function": 3, "clone_indexed": 2}
     # swarm: drop some kinds entirely, emphasise others
     for k in list(w_create):
@@ -108,6 +108,8 @@ def generate(seed: int, run: int, tier: str) -> dict:
             op["override"] = rng.random() < 0.25  # a bare number with `dimension=` given explicitly
         elif kind == "quantity_of":
             op.update(src=rng.randrange(100), name=rng.choice(name_pool), latex=rng.choice(LATEX))
+        elif kind == "xcoordsys":
+            op["type"] = rng.choice([0, 1, 2])
         elif kind == "wrapper":
             op.update(src=rng.randrange(100), cls=rng.choice(["Average", "FiniteDifference", "ExactDifferential", "InexactDifferential"]))
         elif kind == "rotate":
@@ -176,7 +178,7 @@ class Model:
         self.recs: list[dict] = []
 
     def add(self, kind, obj, display, latex, dim, assumptions=None, scale=None, src=None, defaulted=False, extra=None):
-        if kind not in ("coordsys", "wrapper"):
+        if kind not in ("coordsys", "wrapper", "xcoordsys"):
             # display names that legitimately look like generated names (chosen so, or defaulted)
             self.allowed_tokens = getattr(self, "allowed_tokens", set())
             for m in INTERNAL.finditer(str(getattr(obj, "display_name", ""))):
@@ -197,6 +199,8 @@ def _internal_name(rec) -> str:
         return str(o.name)
     if rec["kind"] == "coordsys":
         return str(o.coord_system._name)  # pylint: disable=protected-access
+    if rec["kind"] == "xcoordsys":
+        return "xcs#" + str(id(o))
     return str(o.name)
 
 
@@ -218,7 +222,7 @@ def _check_record(rec, where: str) -> None:
 def _check_record_inner(rec, where: str) -> None:
     o = rec["obj"]
     k = rec["kind"]
-    if k == "coordsys":
+    if k in ("coordsys", "xcoordsys"):
         return
     if k == "wrapper":
         flagged = rec.get("flagged", ())
@@ -291,7 +295,7 @@ def _check_distinct(model: Model) -> None:
     mine_ids = {id(r["obj"]) for r in model.recs}
     mine_names = {}
     for r in model.recs:
-        if r["kind"] != "coordsys":
+        if r["kind"] not in ("coordsys", "xcoordsys"):
             mine_names[_internal_name(r)] = r
     for where, fo in _foreign_objects(model):
         if id(fo) in mine_ids:
@@ -300,11 +304,13 @@ def _check_distinct(model: Model) -> None:
         r = mine_names.get(nm)
         if r is not None and r["src"] is None and r["obj"] is not fo:
             raise Violation("alias", "internal-name:library-object", f"a {r['kind']} created through the API got the generated name {nm}, which {where} (imported earlier in this process) already has")
-    objs = []
+    objs = list(getattr(model, "survivors", []))
     for r in model.recs:
         if r["kind"] == "coordsys":
             cs = r["obj"].coord_system
             objs.extend(list(cs.base_scalars()) + list(cs.base_vectors()))
+        elif r["kind"] == "xcoordsys":
+            objs.extend(list(r["obj"].base_scalars))
         else:
             objs.append(r["obj"])
     n = len(objs)
@@ -351,6 +357,8 @@ def _final_checks(model: Model) -> list[str]:
             ts = [o]
         elif k == "coordsys":
             ts = list(o.coord_system.base_scalars())
+        elif k == "xcoordsys":
+            ts = list(o.base_scalars)
         else:
             continue  # vector objects are checked for distinctness only
         for t in ts:
@@ -408,7 +416,7 @@ def _final_checks(model: Model) -> list[str]:
     # I5 printing
     allowed = set(getattr(model, "allowed_tokens", ()))  # incl. objects the model has since dropped
     for r in model.recs:
-        if r["kind"] in ("coordsys", "wrapper"):
+        if r["kind"] in ("coordsys", "wrapper", "xcoordsys"):
             continue
         d = str(r["obj"].display_name)
         for m in INTERNAL.finditer(d):
@@ -481,12 +489,21 @@ def _final_checks(model: Model) -> list[str]:
     from symplyphysics.docs.printer_latex import latex_str  # pylint: disable=import-outside-toplevel
     for phase in (0, 1):
         for r in model.recs:
-            plain = r["latex"] is None and str(r["display"] or "").isalpha()  # e.g. "m": its LaTeX form is itself
+            plain = r["latex"] is None and str(r["display"] or "").isalpha() and len(str(r["display"])) == 1  # e.g. "m": its LaTeX form is itself (longer names may be Greek letters)
             if r["kind"] == "symbol" and (r["latex"] is not None or plain) and r["src"] is None:
                 got = latex_str(r["obj"])
                 if got != str(r["obj"].display_latex):
                     raise Violation("print", "latex_str:symbol", f"latex_str of a symbol whose LaTeX name is {str(r['obj'].display_latex)!r} gives {got!r}" + (" after functions with declared arguments were printed" if phase else ""))
         if phase == 0:
+            for r in model.recs:
+                if r["kind"] == "function" and not r["defaulted"] and r["src"] is None and (r["extra"].get("nargs") in (None, 1, 2)):
+                    applied_ = r["obj"](*([common] * (r["extra"].get("nargs") or 1)))
+                    try:
+                        ltx = latex_str(applied_)
+                    except Exception as e:  # pylint: disable=broad-except
+                        raise Violation("print", "latex_str:applied-function", f"latex_str of the applied function {r['display']!r} raised {type(e).__name__}: {str(e)[:120]}") from None
+                    if re.search(r"(SYM|FUN|QTY)_\{\d+\}", ltx) and not INTERNAL.search(str(r["display"])):
+                        raise Violation("print", "latex_str:applied-function", f"latex_str of the applied function {r['display']!r} shows a generated internal name: {ltx[:160]!r}")
             for r in model.recs:
                 if r["kind"] == "function" and (r.get("extra") or {}).get("declared"):
                     try:
@@ -637,6 +654,10 @@ def _apply(op: dict, model: Model, state: dict):  # pylint: disable=too-many-bra
             h = hashlib.sha256(f"{op.get('salt', 0)}/{i}".encode()).digest()[0] / 256.0
             if h < op.get("frac", 0.5) and r["kind"] in ("symbol", "indexed", "function") and id(r) not in referenced:
                 continue
+            if h < op.get("frac", 0.5) / 2 and r["kind"] == "coordsys":
+                # the user lets go of the system but keeps expressions written in its base scalars
+                model.survivors = getattr(model, "survivors", []) + list(r["obj"].coord_system.base_scalars())
+                continue
             keep.append(r)
         f["drop"] = f.get("drop", 0) + (len(model.recs) - len(keep))
         model.recs[:] = keep
@@ -729,6 +750,11 @@ def _apply(op: dict, model: Model, state: dict):  # pylint: disable=too-many-bra
         else:
             o = sx.Quantity(expr, display_symbol=name, display_latex=latex)
         model.add("quantity", o, name, latex if latex else None, dim, None, scale=complex(scale), defaulted=not name, extra={"default_display": lambda o: str(o.name), "value": scale})
+    elif k == "xcoordsys":
+        from symplyphysics.core.experimental.coordinate_systems import coordinate_systems as xcs  # pylint: disable=import-outside-toplevel
+        cls = [xcs.CartesianCoordinateSystem, xcs.CylindricalCoordinateSystem, xcs.SphericalCoordinateSystem][op["type"]]
+        o = cls()
+        model.add("xcoordsys", o, None, None, None)
     elif k == "wrapper":
         from symplyphysics.core.operations import symbolic  # pylint: disable=import-outside-toplevel
         cands = [r for r in model.recs if r["kind"] == "symbol"]
@@ -883,7 +909,7 @@ def child_run(job: dict) -> dict:
         finally:
             global_parameters.evaluate = flag
         events.append([len(job["ops"]), "final", "VIOLATION" if violation else "ok"])
-    displays = sorted(str(r["obj"].display_name) for r in model.recs if r["kind"] not in ("coordsys", "wrapper") and not r["defaulted"])
+    displays = sorted(str(r["obj"].display_name) for r in model.recs if r["kind"] not in ("coordsys", "wrapper", "xcoordsys") and not r["defaulted"])
     collisions = len(displays) - len(set(displays))
     f = state["faults"]
     fired = sum(f.values())
